@@ -16,11 +16,11 @@
          both return one (on expressions whose and/or operands are boolean); it is the very same tree when the
          original carries no fast marks (all effects and errors equal);
      (4) dumping the recompiled unoptimised program reproduces the text exactly.
-   PARTIAL: not proved — the same for the program WITH event nodes (ReportEvent/Debug): `dump (eventize P) = dump P`
-   is checked per case (model dump vs Go's Dump on Go's event-mode program, and Go's Dump with vs without events);
-   and "same result on every binding" beyond "whenever both return a value" (a fast and/or operator evaluates both
-   leaves, so an erroring second operand behind a deciding first one is an error before and a value after). *)
-Require Import Base Opcode Tables Ops Tree Opt Flat Run Directives Lexer Parser Print LexProofs PrefixProofs PrintProofs SourceProofs OptSound DumpProofs DumpStruct DumpText.
+     (5) the same text is printed for the program WITH event nodes (ReportEvent/Debug).
+   PARTIAL only in this: "same result on every binding" is proved as "whenever both return a value" (a fast and/or
+   operator evaluates both leaves, so an erroring second operand behind a deciding first one is an error before and
+   a value after the round trip). *)
+Require Import Base Opcode Tables Ops Tree Opt Flat Run Directives Lexer Parser Print LexProofs PrefixProofs PrintProofs SourceProofs OptSound DumpProofs DumpStruct DumpText FlatE DumpStructE.
 Open Scope Z_scope.
 
 (* (0) Dump of a compiled program is the structural printing of its tree *)
@@ -62,8 +62,10 @@ Theorem C13_second_dump : forall c t, twf c (strip t) ->
   parse_prefix c false (ttoks show_Z (strip t)) = Some (strip t).
 Proof. intros c t H. rewrite (parse_prefix_correct c show_Z parse_show_Z _ H). rewrite strip_idem. reflexivity. Qed.
 
-(* the unproved step, kept visible: event nodes are invisible to Dump *)
-Definition C13_dump_events_statement : Prop := forall t, dump (eventize (compile t)) = dump (compile t).
+(* regardless of event/debug mode: Dump of the event-mode program is the same text (event nodes are skipped, the
+   real nodes keep their structure), so everything above holds for it too *)
+Theorem C13_dump_event_mode : forall t, dump (compileE t) = dump (compile t).
+Proof. exact dump_events_transparent. Qed.
 
 (* non-vacuity: a program with a string full of delimiters, a list, a fast operator; its Dump in the model; the
    round trip through the whole front end *)
@@ -84,10 +86,11 @@ Proof.
 Qed.
 Example C13_ex_dump : option_map (parse_source c0 false) (dump (compile ex)) = Some (Some (strip ex)).
 Proof. vm_compute. reflexivity. Qed.
-Example C13_ex_dump_events : dump (eventize (compile ex)) = dump (compile ex).
-Proof. vm_compute. reflexivity. Qed.
+Example C13_ex_dump_events : dump (eventize (compile ex)) = dump (compile ex) /\ compileE ex = eventize (compile ex).
+Proof. vm_compute. split; reflexivity. Qed.
 
 Print Assumptions C13_dump_is_show.
+Print Assumptions C13_dump_event_mode.
 Print Assumptions C13_dump_roundtrip.
 Print Assumptions C13_reparse.
 Print Assumptions C13_same_value.
